@@ -22,6 +22,7 @@ type GenOpts struct {
 	MaxFiles    int // per repository
 	SelfArg     bool // allow called reusable workflows to be arguments themselves
 	PathConfigs bool // configs with `paths` ignore entries
+	Symlinks    bool // some workflow files are symbolic links to files outside their repository
 	Clone       bool // some worlds reuse one workflow text for several files (same code paths collide: shared tables, caches)
 }
 
@@ -190,7 +191,18 @@ func GenMulti(c *Chooser, o GenOpts) *MultiWorld {
 					text, assetNames, groups = composeWorkflow(c, o, ri*10+fi)
 					cloneText, cloneAssets, cloneGroups = text, assetNames, groups
 				}
-				disk.Put(name, []byte(text))
+				if o.Symlinks && c.Weighted("world.symlink", 1, 6) {
+					// the workflow is a symbolic link into a directory outside every repository
+					// (or inside another repository): it still belongs to the repository of its path
+					target := fmt.Sprintf("/shared/wf/r%df%d.yml", ri, fi)
+					if len(mw.Repos) > 0 && c.Bool("world.symlinkintorepo") {
+						target = fmt.Sprintf("%s/shared-r%df%d.yml", mw.Repos[0].Root, ri, fi)
+					}
+					disk.Put(target, []byte(text))
+					disk.Symlink(name, target)
+				} else {
+					disk.Put(name, []byte(text))
+				}
 				InstallAssets(func(p, ct string) { disk.Put(p, []byte(ct)) }, root, assetNames)
 				r.Workflows = append(r.Workflows, name)
 				mw.Groups[name] = groups
